@@ -99,6 +99,17 @@ def main():
                     pos = ix + 1
         ensure = bool(rng.integers(0, 2))
         wit = {'n_features': nf, 'n_samples': ns, 'cardinality': card, 'structure': structure, 'ensure_rep': ensure, 'seed': seed}
+        # a non-default lower bound of the default domain: undeclared (gap) columns take {low, ..., low + cardinality - 1}
+        low_ = int(rng.choice([0, 0, 100, -7]))
+        try:
+            Xl = CC().generate_data(nf, ns, cardinality=card, structure=structure, ensure_rep=ensure, seed=seed, low=low_)
+            for col_ in range(nf):
+                if col_ not in declared and not set(Xl[:, col_].tolist()) <= set(range(low_, low_ + card)):
+                    h.fail('generate_data.default_domain_of_undeclared_columns', dict(wit, low=low_, column=col_),
+                           f'values {sorted(set(Xl[:, col_].tolist()))[:8]} outside [{low_}, {low_ + card - 1}]')
+                    break
+        except Exception as e_:
+            h.fail('generate_data.no_raise', dict(wit, low=low_), f'{type(e_).__name__}: {e_}')
         try:
             X = CC().generate_data(nf, ns, cardinality=card, structure=structure, ensure_rep=ensure, seed=seed)
             X2 = CC().generate_data(nf, ns, cardinality=card, structure=structure, ensure_rep=ensure, seed=seed)
